@@ -593,14 +593,16 @@ package saml
 //@ requires[cfg] sp: sp != nil && (len(sp.SignatureMethod) == 0 || sp.Certificate != nil)
 //@ ensures[C12,C09] nil_iff_err: (result == nil) == (err != nil)
 //@ -- C12: the hand-assembled query is exactly [old query &] SAMLRequest=esc(req) [&RelayState=esc(relayState)], i.e. every
-//@ -- dynamic string enters through url.QueryEscape; C13: the signed octets are exactly that string plus &SigAlg=esc(method)
+//@ -- dynamic string enters through url.QueryEscape; C13 (from the property and SAML bindings 3.4.4.1): the signed octets are
+//@ -- exactly SAMLRequest=esc(req)[&RelayState=esc(relayState)]&SigAlg=esc(method) - without any query the IdP endpoint
+//@ -- already carried - and they appear unchanged in the emitted query, followed by &Signature=
 //@ assert@store[C12] RawQuery #1 (stored string) uses rv *url.URL, requestStr strings.Builder unsigned_query:
 //@    len(sp.SignatureMethod) == 0 ==> stored == redirectQuery(rv.RawQuery, requestStr.String(), relayState)
 //@ assert@call[C12,C13] SignString #1 (ctx *dsig.SigningContext, content string) uses rv *url.URL, requestStr strings.Builder signed_octets:
-//@    content == redirectQuery(rv.RawQuery, requestStr.String(), relayState) + "&SigAlg=" + url.QueryEscape(sp.SignatureMethod)
+//@    content == redirectQuery("", requestStr.String(), relayState) + "&SigAlg=" + url.QueryEscape(sp.SignatureMethod)
 //@ assert@store[C13] RawQuery #1 (stored string) uses rv *url.URL, requestStr strings.Builder signature_appended:
-//@    len(sp.SignatureMethod) > 0 ==> strings.HasPrefix(stored,
-//@      redirectQuery(rv.RawQuery, requestStr.String(), relayState) + "&SigAlg=" + url.QueryEscape(sp.SignatureMethod) + "&Signature=")
+//@    len(sp.SignatureMethod) > 0 ==> strings.HasPrefix(stored, redirectBase(rv.RawQuery) +
+//@      redirectQuery("", requestStr.String(), relayState) + "&SigAlg=" + url.QueryEscape(sp.SignatureMethod) + "&Signature=")
 
 //@ -- logout redirects: the relay state, when given, is set as the RelayState parameter on every path, unmodified
 //@ contract (*LogoutRequest).Redirect
